@@ -750,7 +750,7 @@ class Fxp():
             vdtype = val.dtype
         
         # scaling conversion
-        self.scaled = False
+        self.scaled = bool(self.scale is not None and self.bias is not None and (self.bias != 0 or self.scale != 1))
         if self.scale is not None and self.bias is not None and not raw:
             if self.bias != 0:
                 val = val - self.bias
